@@ -6,6 +6,7 @@ CONSTANTS
   Nesting = FALSE
   TaskAllow = FALSE
   AtomicLaunch = TRUE
+  ErrFirst = TRUE
   HookKinds = {"none", "fail"}
 SPECIFICATION Spec
 INVARIANTS CommandsAfterDependencies StopsAtFailure FinalOK RunOnlyWhileStageRunning UpBeforeUse DownAfterAll OneUpAtATime NothingRunsAtReturn NoDoubleLaunch
